@@ -95,6 +95,22 @@ func generate(w *mon.W) {
 			return
 		}
 	}
+	// every integer in the neighbourhood of the widths numbers are stored in
+	// (2^31, 2^32, 2^53, 2^63, 2^64, 10^19, 10^20), in decimal, padded decimal
+	// and hexadecimal: the last digit matters for overflow checks
+	{
+		centres := []string{"2147483648", "4294967296", "9007199254740992", "9223372036854775808", "18446744073709551616", "10000000000000000000", "100000000000000000000", "1844674407370955161", "184467440737095516160"}
+		for _, cs := range centres {
+			c, _ := new(big.Int).SetString(cs, 10)
+			for d := int64(-24); d <= 40; d++ {
+				v := new(big.Int).Add(c, big.NewInt(d))
+				for _, sp := range []string{v.String(), "000" + v.String(), "0x" + v.Text(16), "0X00" + strings.ToUpper(v.Text(16)), v.String() + ".0", v.String() + "e0"} {
+					sp := sp
+					w.Do(sp, func(r *mon.R) { Check(sp, r) })
+				}
+			}
+		}
+	}
 	// prefixes of corpus programs: end of input in every scanner state
 	for _, p := range gen.Seeds() {
 		for i := 1; i <= len(p); i++ {
